@@ -1,0 +1,202 @@
+//go:build verif
+
+// Contracts for the verification machinery in /verif (comment-only; never compiled into a binary).
+// Property C06: CPU and NUMA allocations are exact, disjoint and within capacity.
+
+package nodenumaresource
+
+//@ uses pkg/util/cpuset
+
+// ---- NUMA-level split ----
+
+// allocateRes(available, request) = (available - allocated, request - allocated, allocated) with allocated = min.
+//@ func allocateRes [C06]
+//@   ensures #alloc: result2 == min(available, request)
+//@   ensures #avail: result0 == available - min(available, request)
+//@   ensures #rest: result1 == request - min(available, request)
+//@   modifies nothing
+
+// splitQuantity: the share tried on the next NUMA node when numaNodeCount nodes are still to be visited.
+// Precondition on the topology: callers reach the FullPCPUs branch only after Filter checked CPUTopology.IsValid();
+// a detected topology has at least one logical CPU per core.
+//@ spec func fullPCPUs(o *ResourceOptions) bool = o.requestCPUBind && o.requiredCPUBindPolicy && o.cpuBindPolicy == schedulingconfig.CPUBindPolicyFullPCPUs
+//@ spec func topoOK(t *CPUTopology) bool = t != nil && t.NumCores >= 1 && t.NumCPUs >= t.NumCores
+// slack(o, r): one unit in which splitQuantity divides resource r (a milli-CPU for a CPU share request, one whole
+// unit otherwise). Value()/MilliValue() round a fractional quantity UP before dividing, so a share can exceed a
+// fractional remainder by less than one such unit; for whole-unit inputs it cannot. (Whole-ness itself is not
+// tracked: z3 and cvc5 do not terminate on "x, y integral ==> x - min(y, z) integral" over the reals.)
+//@ spec func slack(o *ResourceOptions, r corev1.ResourceName) float64 = (r == corev1.ResourceCPU && !o.requestCPUBind) ? 0.001 : 1
+// The quotients splitQuantity computes are kept behind opaque spec functions so that call sites reason about them
+// only through the lemmas below (whole number, between 0 and the dividend, the whole dividend for one node).
+//@ spec func share(v int64, n int64) int64 = v / n
+//@ spec func coreShare(v int64, cpc int64, n int64) int64 = ((v / cpc) / n) * cpc
+//@ opaque share coreShare
+//@ lemma shareBound [C06]: forall v int64, n int64 :: v >= 0 && n >= 1 ==> 0 <= share(v, n) && share(v, n) <= v
+//@ lemma shareOne [C06]: forall v int64 :: share(v, 1) == v
+//@ lemma coreShareBound [C06]: forall v int64, c int64, n int64 :: v >= 0 && c >= 1 && n >= 1 ==> 0 <= coreShare(v, c, n) && coreShare(v, c, n) <= v
+
+// The three functional clauses mention calls(...) only so that they are NOT assumed at call sites (guide: "Clauses of
+// a callee's contract that mention calls(…) are not assumed at its call sites"): callers need just the consequences
+// #nonneg / #le_* / #last_*, and are spared the nonlinear quotient terms.
+//@ func splitQuantity [C06]
+//@   use lemma shareBound shareOne coreShareBound
+//@   requires numaNodeCount >= 1 && options != nil
+//@   requires quantity > 0 - slack(options, resourceName)
+//@   requires options.requestCPUBind ==> topoOK(options.topologyOptions.CPUTopology)
+//@   let cpc = options.topologyOptions.CPUTopology.NumCPUs / options.topologyOptions.CPUTopology.NumCores
+//@   ensures #other: calls("CPUsPerCore") >= 0 && (resourceName != corev1.ResourceCPU || (options.requestCPUBind && !fullPCPUs(options)) ==> result == real(share(quantity.Value(), numaNodeCount)))
+//@   ensures #milli: calls("CPUsPerCore") >= 0 && (resourceName == corev1.ResourceCPU && !options.requestCPUBind ==> 1000 * result == real(share(quantity.MilliValue(), numaNodeCount)))
+//@   ensures #cores: calls("CPUsPerCore") >= 0 && (resourceName == corev1.ResourceCPU && fullPCPUs(options) ==> cpc >= 1 && result == real(coreShare(quantity.Value(), cpc, numaNodeCount)))
+//@   ensures #nonneg: result >= 0
+//@   ensures #le_other: resourceName != corev1.ResourceCPU || (options.requestCPUBind && !fullPCPUs(options)) ==> result <= real(quantity.Value())
+//@   ensures #le_milli: resourceName == corev1.ResourceCPU && !options.requestCPUBind ==> 1000 * result <= real(quantity.MilliValue())
+//@   ensures #le_cores: resourceName == corev1.ResourceCPU && fullPCPUs(options) ==> result <= real(quantity.Value())
+//@   ensures #last_other: numaNodeCount == 1 && (resourceName != corev1.ResourceCPU || (options.requestCPUBind && !fullPCPUs(options))) ==> result == real(quantity.Value())
+//@   ensures #last_milli: numaNodeCount == 1 && resourceName == corev1.ResourceCPU && !options.requestCPUBind ==> 1000 * result == real(quantity.MilliValue())
+//@   modifies nothing
+
+//@ spec func inInts(xs []int, k int) bool = exists j int :: 0 <= j && j < len(xs) && xs[j] == k
+
+// The per-NUMA ledger built by tryBestToDistributeEvenly: one fresh record per node id, keyed by its own id.
+//@ spec func ledgerOK(m map[int]*NUMANodeResource) bool = m != nil && (forall k int :: {has(m, k)} has(m, k) ==> m[k] != nil && fresh(m[k]) && m[k].Node == k && m[k].Resources != nil && fresh(m[k].Resources))
+//@ spec func ledgerInj(m map[int]*NUMANodeResource) bool = forall k int, j int :: {has(m, k), has(m, j)} has(m, k) && has(m, j) && k != j ==> m[k] != m[j] && m[k].Resources != m[j].Resources
+//@ spec func ledgerSound(m map[int]*NUMANodeResource, avail map[int]corev1.ResourceList) bool = forall k int, r corev1.ResourceName :: {has(m[k].Resources, r)} has(m, k) && has(m[k].Resources, r) ==> m[k].Resources[r] > 0 && m[k].Resources[r] <= avail[k][r]
+//@ spec func remOK(o *ResourceOptions, requests corev1.ResourceList) bool = forall r corev1.ResourceName :: {requests[r]} has(requests, r) == old(has(requests, r)) && 0 - slack(o, r) < requests[r] && requests[r] <= old(requests[r])
+
+//@ func tryBestToDistributeEvenly [C06]
+//@   requires options != nil && requests != nil && totalAvailable != nil
+//@   requires options.requestCPUBind ==> topoOK(options.topologyOptions.CPUTopology)
+//@   requires #fresh_requests: forall k int :: totalAvailable[k] != requests
+//@   requires #nonneg_requests: forall r corev1.ResourceName :: requests[r] >= 0
+//@   requires #nonneg_free: forall k int, r corev1.ResourceName :: totalAvailable[k][r] >= 0
+//@   let bits = options.hint.NUMANodeAffinity.GetBits()
+//@   ensures #sound: forall i int, r corev1.ResourceName, k int :: {has(result0[i].Resources, r), old(totalAvailable[k][r])} 0 <= i && i < len(result0) && has(result0[i].Resources, r) && k == result0[i].Node ==> result0[i].Resources[r] > 0 && result0[i].Resources[r] <= old(totalAvailable[k][r])
+//@   ensures #rem: forall r corev1.ResourceName :: has(requests, r) == old(has(requests, r)) && 0 - slack(options, r) < requests[r] && requests[r] <= old(requests[r])
+//@   ensures #reasons: len(result1) > 0 ==> (exists r corev1.ResourceName :: has(requests, r) && requests[r] != 0)
+//@   loop 1 invariant resourceNamesByNUMA != nil && fresh(resourceNamesByNUMA)
+//@   loop 2 invariant resourceNamesByNUMA != nil && fresh(resourceNamesByNUMA)
+//@   loop 3 invariant sortedNUMANodeByResource != nil && fresh(sortedNUMANodeByResource)
+//@   loop 3 invariant #ids: forall r corev1.ResourceName :: has(sortedNUMANodeByResource, r) ==> len(sortedNUMANodeByResource[r]) == len(numaNodes)
+//@   loop 4 invariant #ok: ledgerOK(allocatedNUMANodeResources) && fresh(allocatedNUMANodeResources)
+//@   loop 4 invariant #inj: ledgerInj(allocatedNUMANodeResources)
+//@   loop 4 invariant #sound: ledgerSound(allocatedNUMANodeResources, totalAvailable)
+//@   loop 4 invariant #frame: forall q corev1.ResourceList, n corev1.ResourceName :: {has(q, n)} {q[n]} allocated(q) && q != requests ==> has(q, n) == old(has(q, n)) && q[n] == old(q[n])
+//@   loop 4 invariant #rem: remOK(options, requests)
+//@   loop 5 invariant #ok: ledgerOK(allocatedNUMANodeResources) && fresh(allocatedNUMANodeResources)
+//@   loop 5 invariant #inj: ledgerInj(allocatedNUMANodeResources)
+//@   loop 5 invariant #sound: ledgerSound(allocatedNUMANodeResources, totalAvailable)
+//@   loop 5 invariant #frame: forall q corev1.ResourceList, n corev1.ResourceName :: {has(q, n)} {q[n]} allocated(q) && q != requests ==> has(q, n) == old(has(q, n)) && q[n] == old(q[n])
+//@   loop 5 invariant #rem: remOK(options, requests)
+//@   loop 5 invariant #idx: 0 <= $i && $i <= len($range) && len($range) <= len(numaNodes)
+//@   loop 5 invariant #qty: quantity > 0 - slack(options, resourceName) && (forall r corev1.ResourceName :: r == resourceName ==> quantity <= old(requests[r]))
+//@   loop 6 invariant #why: len(reasons) > 0 ==> (exists r corev1.ResourceName :: has(requests, r) && requests[r] != 0)
+//@   loop 7 invariant #snd: forall i int, r corev1.ResourceName :: {has(result[i].Resources, r)} 0 <= i && i < len(result) && has(result[i].Resources, r) ==> result[i].Resources[r] > 0 && result[i].Resources[r] <= totalAvailable[result[i].Node][r]
+//@   loop 7 invariant #from: forall i int :: {result[i].Resources} 0 <= i && i < len(result) ==> has(allocatedNUMANodeResources, result[i].Node) && result[i].Resources == allocatedNUMANodeResources[result[i].Node].Resources
+
+// ---- CPU accumulator ----
+// Class invariant pieces stated per method: take(cpus) moves exactly those CPUs from allocatable to result and
+// lowers the outstanding count by their number.
+
+//@ func (*cpuAccumulator).needs [C06]
+//@   requires a != nil
+//@   ensures #iff: result <==> a.numCPUsNeeded >= n
+//@   modifies nothing
+
+//@ func (*cpuAccumulator).isSatisfied [C06]
+//@   requires a != nil
+//@   ensures #iff: result <==> a.numCPUsNeeded <= 0
+//@   modifies nothing
+
+//@ func (*cpuAccumulator).isFailed [C06]
+//@   requires a != nil
+//@   ensures #iff: result <==> a.numCPUsNeeded > len(a.allocatableCPUs)
+//@   modifies nothing
+
+//@ func (*cpuAccumulator).take [C06]
+//@   requires a != nil && a.allocatableCPUs != nil && a.topology != nil && a.exclusiveInCores != nil && a.exclusiveInNUMANodes != nil
+//@   ensures #count: a.numCPUsNeeded == old(a.numCPUsNeeded) - len(cpus)
+//@   ensures #result: forall c int :: has(a.result.elems, c) <==> (old(has(a.result.elems, c)) || inInts(cpus, c))
+//@   ensures #removed: forall c int :: has(a.allocatableCPUs, c) <==> (old(has(a.allocatableCPUs, c)) && !inInts(cpus, c))
+//@   ensures #disjoint: (forall c int :: !(old(has(a.result.elems, c)) && old(has(a.allocatableCPUs, c)))) ==> (forall c int :: !(has(a.result.elems, c) && has(a.allocatableCPUs, c)))
+//@   loop 1 invariant 0 <= $i && $i <= len(cpus)
+//@   loop 1 invariant a.exclusiveInCores != nil && a.exclusiveInNUMANodes != nil && a.allocatableCPUs == old(a.allocatableCPUs)
+//@   loop 1 invariant forall c int :: has(a.allocatableCPUs, c) <==> (old(has(a.allocatableCPUs, c)) && !(exists i int :: 0 <= i && i < $i && cpus[i] == c))
+//@   loop 1 invariant forall c int :: has(a.result.elems, c) <==> (old(has(a.result.elems, c)) || inInts(cpus, c))
+//@   loop 1 invariant a.numCPUsNeeded == old(a.numCPUsNeeded)
+
+// ---- node ledger ----
+
+// refc: the ledger's reference count of a CPU (0 when the CPU has no entry).
+//@ spec func refc(n *NodeAllocation, c int) int = has(n.allocatedCPUs, c) ? n.allocatedCPUs[c].RefCount : 0
+// Data-structure invariant of the ledger: an entry exists only while its count is positive.
+//@ spec func refcOK(n *NodeAllocation) bool = forall c int :: {has(n.allocatedCPUs, c)} has(n.allocatedCPUs, c) ==> n.allocatedCPUs[c].RefCount >= 1
+
+// The topology's CPUDetails is the read-only catalogue of CPUs; its entries carry RefCount 0 (BuildCPUTopology never
+// sets it) and it is a different map from the ledger.
+//@ func (*NodeAllocation).addPodAllocation [C06]
+//@   requires n != nil && request != nil && cpuTopology != nil && n.allocatedPods != nil && n.allocatedCPUs != nil && n.allocatedResources != nil && n.sharedNode != nil && n.singleNUMANode != nil
+//@   requires #catalogue: cpuTopology.CPUDetails != n.allocatedCPUs && (forall c int :: cpuTopology.CPUDetails[c].RefCount == 0)
+//@   requires refcOK(n)
+//@   ensures #dup: old(has(n.allocatedPods, request.UID)) ==> (forall c int :: has(n.allocatedCPUs, c) == old(has(n.allocatedCPUs, c)) && n.allocatedCPUs[c].RefCount == old(n.allocatedCPUs[c].RefCount)) && (forall u types.UID :: has(n.allocatedPods, u) == old(has(n.allocatedPods, u)))
+//@   ensures #recorded: has(n.allocatedPods, request.UID)
+//@   ensures #refcount_in: !old(has(n.allocatedPods, request.UID)) ==> (forall c int :: {has(n.allocatedCPUs, c)} has(request.CPUSet.elems, c) ==> has(n.allocatedCPUs, c) && n.allocatedCPUs[c].RefCount == old(refc(n, c)) + 1)
+//@   ensures #refcount_out: !old(has(n.allocatedPods, request.UID)) ==> (forall c int :: {has(n.allocatedCPUs, c)} !has(request.CPUSet.elems, c) ==> has(n.allocatedCPUs, c) == old(has(n.allocatedCPUs, c)) && n.allocatedCPUs[c].RefCount == old(n.allocatedCPUs[c].RefCount))
+//@   ensures #refcOK: refcOK(n)
+//@   loop 1 invariant #idx: 0 <= $i && $i <= len($range) && n.allocatedCPUs == old(n.allocatedCPUs)
+//@   loop 1 invariant #cnt1: forall c int :: {has(n.allocatedCPUs, c)} (exists j int :: 0 <= j && j < $i && $range[j] == c) ==> has(n.allocatedCPUs, c) && n.allocatedCPUs[c].RefCount == old(refc(n, c)) + 1
+//@   loop 1 invariant #dist: forall j int, k int :: {$range[j], $range[k]} 0 <= j && j < k && k < len($range) ==> $range[j] != $range[k]
+//@   loop 1 invariant #mem: forall j int :: {$range[j]} 0 <= j && j < len($range) ==> has(request.CPUSet.elems, $range[j])
+//@   loop 1 invariant #all: forall c int :: {has(request.CPUSet.elems, c)} has(request.CPUSet.elems, c) ==> (exists j int :: 0 <= j && j < len($range) && $range[j] == c)
+//@   loop 1 invariant #cnt0: forall c int :: {has(n.allocatedCPUs, c)} (forall j int :: {$range[j]} 0 <= j && j < $i ==> $range[j] != c) ==> has(n.allocatedCPUs, c) == old(has(n.allocatedCPUs, c)) && n.allocatedCPUs[c].RefCount == old(n.allocatedCPUs[c].RefCount)
+//@   loop 1 invariant #ok: refcOK(n)
+
+// release undoes addPodAllocation on the CPU ledger: every CPU of the recorded pod loses one reference (its entry is
+// deleted when the count reaches 0, and an absent entry stays absent), every other CPU is untouched.
+//@ func (*NodeAllocation).release [C06]
+//@   requires n != nil && n.allocatedPods != nil && n.allocatedCPUs != nil && n.allocatedResources != nil && n.sharedNode != nil && n.singleNUMANode != nil
+//@   requires refcOK(n)
+//@   let cpus = n.allocatedPods[podUID].CPUSet.elems
+//@   ensures #absent: !old(has(n.allocatedPods, podUID)) ==> (forall c int :: has(n.allocatedCPUs, c) == old(has(n.allocatedCPUs, c)) && n.allocatedCPUs[c].RefCount == old(n.allocatedCPUs[c].RefCount)) && (forall u types.UID :: has(n.allocatedPods, u) == old(has(n.allocatedPods, u)))
+//@   ensures #gone: !has(n.allocatedPods, podUID)
+//@   ensures #others: forall u types.UID :: u != podUID ==> has(n.allocatedPods, u) == old(has(n.allocatedPods, u))
+//@   ensures #refcount_in: old(has(n.allocatedPods, podUID)) ==> (forall c int :: {has(n.allocatedCPUs, c)} old(has(cpus, c)) ==> refc(n, c) == max0(old(refc(n, c)) - 1) && (has(n.allocatedCPUs, c) <==> old(refc(n, c)) >= 2))
+//@   ensures #refcount_out: old(has(n.allocatedPods, podUID)) ==> (forall c int :: {has(n.allocatedCPUs, c)} !old(has(cpus, c)) ==> has(n.allocatedCPUs, c) == old(has(n.allocatedCPUs, c)) && n.allocatedCPUs[c].RefCount == old(n.allocatedCPUs[c].RefCount))
+//@   ensures #refcOK: refcOK(n)
+//@   loop 1 invariant #pods: n.allocatedPods == old(n.allocatedPods) && n.allocatedCPUs == old(n.allocatedCPUs) && !has(n.allocatedPods, podUID) && (forall u types.UID :: u != podUID ==> has(n.allocatedPods, u) == old(has(n.allocatedPods, u)))
+//@   loop 1 invariant #idx: 0 <= $i && $i <= len($range)
+//@   loop 1 invariant #cnt1: forall c int :: {has(n.allocatedCPUs, c)} (exists j int :: 0 <= j && j < $i && $range[j] == c) ==> refc(n, c) == max0(old(refc(n, c)) - 1) && (has(n.allocatedCPUs, c) <==> old(refc(n, c)) >= 2)
+//@   loop 1 invariant #cnt0: forall c int :: {has(n.allocatedCPUs, c)} (forall j int :: {$range[j]} 0 <= j && j < $i ==> $range[j] != c) ==> has(n.allocatedCPUs, c) == old(has(n.allocatedCPUs, c)) && n.allocatedCPUs[c].RefCount == old(n.allocatedCPUs[c].RefCount)
+//@   loop 1 invariant #dist: forall j int, k int :: {$range[j], $range[k]} 0 <= j && j < k && k < len($range) ==> $range[j] != $range[k]
+//@   loop 1 invariant #mem: forall j int, c int :: {$range[j], old(has(cpus, c))} 0 <= j && j < len($range) && c == $range[j] ==> old(has(cpus, c))
+//@   loop 1 invariant #all: forall c int :: {old(has(cpus, c))} old(has(cpus, c)) ==> (exists j int :: 0 <= j && j < len($range) && $range[j] == c)
+//@   loop 1 invariant #ok: refcOK(n)
+//@   loop 2 invariant #pods: n.allocatedPods == old(n.allocatedPods) && !has(n.allocatedPods, podUID) && (forall u types.UID :: u != podUID ==> has(n.allocatedPods, u) == old(has(n.allocatedPods, u)))
+//@   loop 3 invariant #pods: n.allocatedPods == old(n.allocatedPods) && !has(n.allocatedPods, podUID) && (forall u types.UID :: u != podUID ==> has(n.allocatedPods, u) == old(has(n.allocatedPods, u)))
+
+// ---- accumulator construction ----
+
+// KeepOnly restricts the catalogue to the given CPUs (entries copied unchanged into a fresh map).
+//@ func (CPUDetails).KeepOnly [C06]
+//@   ensures #dom: forall c int :: {has(result, c)} has(result, c) <==> (has(d, c) && has(cpus.elems, c))
+//@   ensures #val: forall c int :: {result[c]} has(result, c) ==> result[c] == d[c]
+//@   ensures #fresh: result != nil && fresh(result)
+//@   modifies nothing
+//@   loop 1 invariant result != nil && fresh(result)
+//@   loop 1 invariant forall c int :: {has(result, c)} has(result, c) <==> ($seen[c] && has(d, c) && has(cpus.elems, c))
+//@   loop 1 invariant forall c int :: {result[c]} has(result, c) ==> result[c] == d[c]
+
+// newCPUAccumulator establishes the class invariant: nothing taken yet, the whole request outstanding, and the
+// allocatable CPUs are exactly the catalogue CPUs that are available to this pod.
+// Catalogue invariant used: a CPUDetails entry is keyed by its own CPUID (BuildCPUTopology).
+//@ func newCPUAccumulator [C06]
+//@   requires topology != nil && topology.CPUDetails != nil
+//@   requires #keyed: forall c int :: {has(topology.CPUDetails, c)} has(topology.CPUDetails, c) ==> topology.CPUDetails[c].CPUID == c
+//@   ensures #fresh: result != nil && fresh(result) && result.topology == topology && result.maxRefCount == maxRefCount
+//@   ensures #needed: result.numCPUsNeeded == numCPUsNeeded
+//@   ensures #empty: forall c int :: !has(result.result.elems, c)
+//@   ensures #allocatable: result.allocatableCPUs != nil && (forall c int :: {has(result.allocatableCPUs, c)} has(result.allocatableCPUs, c) <==> (has(topology.CPUDetails, c) && has(availableCPUs.elems, c)))
+//@   ensures #sets: result.exclusiveInCores != nil && result.exclusiveInNUMANodes != nil
+//@   loop 1 invariant exclusiveInCores != nil && exclusiveInNUMANodes != nil
+//@   loop 2 invariant allocatableCPUs != nil && fresh(allocatableCPUs) && allocatableCPUs != topology.CPUDetails
+//@   loop 2 invariant forall c int :: {has(allocatableCPUs, c)} has(allocatableCPUs, c) <==> (has(topology.CPUDetails, c) && has(availableCPUs.elems, c))
+//@   loop 2 invariant forall c int :: {allocatableCPUs[c]} has(allocatableCPUs, c) ==> allocatableCPUs[c].CPUID == c
